@@ -11,8 +11,9 @@
 EXTENDS Integers, Sequences, FiniteSets, TLC
 
 VARIABLES started, mode, initId, curId, opCount, builders, queued,
-          rawpos     \* positions in `queued` of pre-formed requests (InjectRequest / Enqueue): not the builders' doing
-fvars == <<started, mode, initId, curId, opCount, builders, queued, rawpos>>
+          rawpos,    \* positions in `queued` of pre-formed requests (InjectRequest / Enqueue): not the builders' doing
+          base       \* number of queued messages that belonged to an earlier connection (Stop + Start): they are not sent again
+fvars == <<started, mode, initId, curId, opCount, builders, queued, rawpos, base>>
 
 EmptyFn      == [x \in {} |-> TRUE]
 Put(f, k, v) == [x \in (DOMAIN f) \cup {k} |-> IF x = k THEN v ELSE f[x]]
@@ -96,21 +97,28 @@ Methods(kind) ==
 -----------------------------------------------------------------------------
 FInit ==
   /\ started = FALSE /\ mode = "" /\ initId = <<"0", "0">> /\ curId = <<"0", "0">> /\ opCount = 0
-  /\ builders = EmptyFn /\ queued = <<>> /\ rawpos = {}
+  /\ builders = EmptyFn /\ queued = <<>> /\ rawpos = {} /\ base = 0
 
 FStart(md, id) ==
   /\ started' = TRUE /\ mode' = md /\ initId' = id /\ curId' = id /\ opCount' = 0
-  /\ builders' = EmptyFn /\ queued' = <<>> /\ rawpos' = {}
+  /\ builders' = EmptyFn /\ queued' = <<>> /\ rawpos' = {} /\ base' = 0
+
+\* Stop followed by Start on the same fluent client: a new connection (what was queued for the old one is gone), but the
+\* client's own state - the id counter and the election id last set with UpdateElectionID - is kept
+FRestart ==
+  /\ started
+  /\ base' = Len(queued)
+  /\ UNCHANGED <<started, mode, initId, curId, opCount, builders, queued, rawpos>>
 
 FNew(b, kind) ==
   /\ started
   /\ builders' = Put(builders, b, NewBuilder(kind))
-  /\ UNCHANGED <<started, mode, initId, curId, opCount, queued, rawpos>>
+  /\ UNCHANGED <<started, mode, initId, curId, opCount, queued, rawpos, base>>
 
 FCall(b, m, a) ==
   /\ started /\ b \in DOMAIN builders /\ m \in Methods(builders[b].kind)
   /\ builders' = [builders EXCEPT ![b] = Apply(@, m, a)]
-  /\ UNCHANGED <<started, mode, initId, curId, opCount, queued, rawpos>>
+  /\ UNCHANGED <<started, mode, initId, curId, opCount, queued, rawpos, base>>
 
 \* the operation a builder turns into (a snapshot of the builder at this moment)
 OpOf(b, typ, id) ==
@@ -123,13 +131,13 @@ FQueue(typ, bs) ==
   /\ started /\ \A i \in DOMAIN bs : bs[i] \in DOMAIN builders
   /\ queued' = Append(queued, [k |-> "ops", ops |-> [i \in DOMAIN bs |-> OpOf(bs[i], typ, opCount + i)]])
   /\ opCount' = opCount + Len(bs)
-  /\ UNCHANGED <<started, mode, initId, curId, builders, rawpos>>
+  /\ UNCHANGED <<started, mode, initId, curId, builders, rawpos, base>>
 
 FUpdate(id) ==
   /\ started
   /\ curId' = id
   /\ queued' = Append(queued, [k |-> "elec", id |-> id])
-  /\ UNCHANGED <<started, mode, initId, opCount, builders, rawpos>>
+  /\ UNCHANGED <<started, mode, initId, opCount, builders, rawpos, base>>
 
 \* InjectRequest / Enqueue: a pre-formed request with explicit operation ids is queued as it is; the ids the builders'
 \* operations get afterwards are not affected (the ids are the caller's business, distinct from the automatic ones)
@@ -138,11 +146,11 @@ FInject(ids) ==
   /\ started
   /\ queued' = Append(queued, [k |-> "ops", ops |-> [i \in DOMAIN ids |-> RawOp(ids[i])]])
   /\ rawpos' = rawpos \cup {Len(queued) + 1}
-  /\ UNCHANGED <<started, mode, initId, curId, opCount, builders>>
+  /\ UNCHANGED <<started, mode, initId, curId, opCount, builders, base>>
 
 \* what goes onto the stream once sending starts
 ParamsMsg == [k |-> "params", red |-> IF mode = "elected" THEN "SINGLE_PRIMARY" ELSE "ALL_PRIMARY", per |-> "PRESERVE", ack |-> "RIB_ACK"]
-Sent == <<ParamsMsg>> \o (IF mode = "elected" THEN << [k |-> "elec", id |-> initId] >> ELSE <<>>) \o queued
+Sent == <<ParamsMsg>> \o (IF mode = "elected" THEN << [k |-> "elec", id |-> initId] >> ELSE <<>>) \o SubSeq(queued, base + 1, Len(queued))
 
 -----------------------------------------------------------------------------
 (* Properties (C18) *)
